@@ -72,4 +72,26 @@ mod test {
         // let expected = ws.ty("Subject");
         // assert_eq!(ty, expected);
     }
+
+    #[test]
+    fn test_unresolved_member_owner_order_is_deterministic() {
+        // The three assignments are blocked by three different reasons (the return types of
+        // getc1/getc2/getc3 are only known after `z.lua` has been analyzed); they must be
+        // resolved in file order, not in the iteration order of a hash map.
+        for _ in 0..16 {
+            let mut ws = VirtualWorkspace::new();
+            ws.def_files(vec![
+                ("h.lua", "---@class C\nC = {}\n"),
+                ("a.lua", "getc1().x = 1\n"),
+                ("b.lua", "getc2().x = \"s\"\n"),
+                ("c.lua", "getc3().x = true\n"),
+                (
+                    "z.lua",
+                    "function getc1() return C end\nfunction getc2() return C end\nfunction getc3() return C end\n",
+                ),
+            ]);
+            let ty = ws.expr_ty("C.x");
+            assert_eq!(ws.humanize_type(ty), "1");
+        }
+    }
 }
